@@ -20,7 +20,9 @@ RULE = ('every operation with an inplace flag (filter by ids / by function, tran
         'content == non-in-place content (two fresh builds), the real aliasing relation (np.shares_memory on matrix/id arrays, `is` on '
         'metadata dicts and nested values) against the Share/Fresh pattern of the Coq effect model, the receiver layout afterwards; then '
         'the result is mutated in place (transform, add_metadata, del_metadata, dict item assignment, update_ids, matrix_data.data[:] = .., '
-        'filter, remove_empty) and the inputs are re-snapshotted after every step; raw writes into id arrays / nested metadata values are '
+        'filter, remove_empty, add_group_metadata) and the inputs (content AND group metadata) are re-snapshotted after every step; '
+        'receivers carry group metadata (add_group_metadata, or read back from HDF5) in a third of the cases; merge is also called with an '
+        'empty list / tuple of others (fast and general path); raw writes into id arrays / nested metadata values are '
         'recorded separately. non-trivial = table with >= 2 ids on both axes and a non-zero entry; distinct by case hash')
 TRUSTED = ['PARTIAL: the effect signatures coq/Model/Effects.v are a hand abstraction of CPython object identity; they are tied to '
            'biom/table.py only by this run (observed aliasing must equal the predicted one on every case)',
@@ -200,6 +202,8 @@ def _call(c, t, other):
             return t.collapse(otm_f, norm=False, one_to_many=True, one_to_many_mode=a['otm'], axis=ax)
         return t.collapse(_group_f([str(i) for i in t.ids(axis=ax)]), norm=False, axis=ax)
     if op == 'merge':
+        if a.get('others') is not None:     # an EMPTY collection of others: tables[0].merge(tables[1:]) with one table
+            return t.merge([] if a['others'] == 'list' else (), sample=a.get('how', 'union'))
         return t.merge(other)
     if op == 'concat':
         return t.concat([other], axis=ax)
@@ -233,7 +237,7 @@ def _raw_writes(res_list, watched):
             arr[0] = 'Z' * max(1, len(str(old))) if str(old)[:1] != 'Z' else 'Y' * max(1, len(str(old)))
             if str(arr[0]) != str(old):
                 for name, tab, before in watched:
-                    if _snap(tab) != before:
+                    if _wsnap(tab) != before:
                         leaks.add((comp, name))
             arr[0] = old
         for comp, ax in (('ValO', 'observation'), ('ValS', 'sample')):
@@ -242,7 +246,7 @@ def _raw_writes(res_list, watched):
                 if isinstance(v, list):
                     v.append('RAW')
             for name, tab, before in watched:
-                if vals and _snap(tab) != before:
+                if vals and _wsnap(tab) != before:
                     leaks.add((comp, name))
             for v in vals:
                 if isinstance(v, list):
@@ -256,11 +260,17 @@ def _api_mutations(res_list, watched):
 
     def check(step):
         for name, tab, before in watched:
-            if _snap(tab) != before and [step, name] not in leaks:
+            if _wsnap(tab) != before and [step, name] not in leaks:
                 leaks.append([step, name])
     for res in res_list:
+        for name, tab, before in watched:
+            for ax in ('observation', 'sample'):
+                g = res.group_metadata(axis=ax)
+                if g is not None and g is tab.group_metadata(axis=ax) and ['group metadata dict is the same object', name] not in leaks:
+                    leaks.append(['group metadata dict is the same object', name])
         steps = [
-            # first the steps that write into whatever matrix object the result holds right now
+            ('add_group_metadata', lambda r: [r.add_group_metadata({'added_later': ('str', ax)}, axis=ax) for ax in ('observation', 'sample')]),
+            # then the steps that write into whatever matrix object the result holds right now
             ('matrix_data.data[:]=', lambda r: r.matrix_data.data.__setitem__(slice(None), 77.0)),
             ('transform(%s)' % ('observation' if res.matrix_data.format == 'csr' else 'sample'),
              lambda r: r.transform(lambda v, i, m: v * 3 + 1, axis='observation' if r.matrix_data.format == 'csr' else 'sample', inplace=True)),
@@ -369,11 +379,42 @@ def run_impl(c):
     return o
 
 
+GRP = {'observation': {'tree': ('newick', '(o_a:0.1,o_b:0.2);'), 'note': ('str', 'obs')},
+       'sample': {'tree': ('newick', '(s_a,s_b);')}}
+
+
+def _give_group_md(t, how):
+    """group metadata of the receiver: 'add' = add_group_metadata on both axes (fresh dicts per build),
+    'sample' = only the sample axis, 'hdf5' = the table written to and read back from an (in-memory) HDF5 file"""
+    if not how:
+        return t
+    for ax in (('observation', 'sample') if how in ('add', 'hdf5') else ('sample',)):
+        t.add_group_metadata(_copy.deepcopy(GRP[ax]), axis=ax)
+    if how == 'hdf5':
+        import h5py
+        from biom import Table as _T
+        with h5py.File('c07-%d.h5' % id(t), 'w', driver='core', backing_store=False) as fh:
+            t.to_hdf5(fh, 'c07')
+            t = _T.from_hdf5(fh)
+    return t
+
+
+def _gsnap(t):
+    """group metadata of both axes, as plain data"""
+    return canon([T.plain(_copy.deepcopy(t.group_metadata(axis=ax))) for ax in ('observation', 'sample')])
+
+
+def _wsnap(t):
+    """what must not change in an input: content snapshot and group metadata"""
+    return [_snap(t), _gsnap(t)]
+
+
 def _build_pair(c):
     # 'pre': a prior history that used to leave all-empty metadata dicts behind (F40, see harness/c06.py apply_pre)
     # 'hist': an earlier in-place transform of the receiver (see _apply_hist)
-    return (_apply_hist(apply_pre(T.build(c['spec']), c.get('pre')), c.get('hist')),
-            (T.build(c['other']) if c.get('other') else None))
+    # 'grp': group metadata given to the receiver (and the argument table)
+    return (_give_group_md(_apply_hist(apply_pre(T.build(c['spec']), c.get('pre')), c.get('hist')), c.get('grp')),
+            (_give_group_md(T.build(c['other']), 'add' if c.get('grp') else None) if c.get('other') else None))
 
 
 def _content_kind(c):
@@ -402,7 +443,7 @@ def _run_impl(c):
         return _run_export(c)
     t, other = _build_pair(c)
     inplace = _in_place(c)
-    before, before_o = _snap(t), (None if other is None else _snap(other))
+    before, before_o = _wsnap(t), (None if other is None else _wsnap(other))
     refs, refs_o = _components(t), (None if other is None else _components(other))
     out = {'ret': None, 'alias': [], 'fmt': None, 'content': None, 'raw_leak': None,
            'recv_same': None, 'arg_same': None, 'mut_leak': None, 'inplace_eq': None}
@@ -411,8 +452,8 @@ def _run_impl(c):
     except Exception as e:
         out['ret'] = 'err'
         out['fmt'] = [t.matrix_data.format, None if other is None else other.matrix_data.format]
-        out['recv_same'] = _snap(t) == before
-        out['arg_same'] = None if other is None else _snap(other) == before_o
+        out['recv_same'] = _wsnap(t) == before
+        out['arg_same'] = None if other is None else _wsnap(other) == before_o
         if _content_kind(c):
             out['content'] = ['raise', _snap(t), T.err_code(e)]
         else:
@@ -426,12 +467,13 @@ def _run_impl(c):
     out['alias'] = al[0] if all(x == al[0] for x in al) else ['nonuniform'] + al
     out['fmt'] = [t.matrix_data.format, None if other is None else other.matrix_data.format]
     after = _snap(t)
+    after_w = _wsnap(t)
     if _content_kind(c):
         out['content'] = ['self', after] if out['ret'] == 'self' else ['new', after, _snap(res_list[0])]
     if not inplace:
-        out['recv_same'] = after == before
+        out['recv_same'] = after_w == before
     if other is not None:
-        out['arg_same'] = _snap(other) == before_o
+        out['arg_same'] = _wsnap(other) == before_o
     if not inplace:
         watched = [('recv', t, before)] + ([] if other is None else [('arg', other, before_o)])
         out['raw_leak'] = _raw_writes(res_list, watched)
@@ -464,7 +506,7 @@ def _align_axes(c):
 def _flag_bools(c):
     if c['op'] == 'align_to':
         return _align_axes(c)
-    if c['op'] in ('merge', 'concat'):
+    if c['op'] in ('merge', 'concat') and c.get('other'):
         s, o = c['spec'], c['other']
         return bool(set(o['oids']) - set(s['oids'])), bool(set(o['sids']) - set(s['sids']))
     return False, False
@@ -488,7 +530,10 @@ def encode(c):
             content = [2, tb, [[cd.id(x), cd.id(y)] for x, y in a['id_map']], AX3[c['axis']], int(a['strict'])]
     md = c['md']
     amd = c.get('amd', ['none', 'none'])
-    return [OPS.index(c['op']), lk, int(bool(c.get('inplace', False))), AX3.get(c.get('axis'), 1), MDK[md[0]], MDK[md[1]],
+    opi = OPS.index(c['op'])
+    if c['op'] == 'merge' and a.get('others') is not None and (md != ['none', 'none'] or a.get('how') == 'intersection'):
+        opi = OPS.index('copy')      # table.py merge: `merged = self.copy()`, no other table to fold in
+    return [opi, lk, int(bool(c.get('inplace', False))), AX3.get(c.get('axis'), 1), MDK[md[0]], MDK[md[1]],
             MDK[amd[0]], MDK[amd[1]], int(bool(a.get('view'))), int(bo), int(bs), content, alk]
 
 
@@ -746,6 +791,8 @@ def gen(rng, tier):
             c = _case(rng, op, None, rng.random() < 0.5)
             if op in FLAG_OPS and rng.random() < 0.3:
                 c = _with_history(rng, c)
+            if rng.random() < 0.3:
+                c['grp'] = 'add'
             yield c
         # histories: an earlier in-place thresholding transform, then every flag operation in both variants - among
         # them functions that look at all the values they are handed (rankdata, sub_min, count)
@@ -769,6 +816,25 @@ def gen(rng, tier):
                                  'two_to_one': {'id_map': [[ids[0], 'same'], [ids[1], 'same']], 'strict': False},
                                  'onto_retained_last': {'id_map': [[ids[-1], ids[0]], ['ghost', 'g']], 'strict': False},
                                  'strict_incomplete': {'id_map': [[i, i + 'x'] for i in ids[1:]], 'strict': True}}[kind]
+                    yield c
+        # merge with an EMPTY collection of others (what tables[0].merge(tables[1:]) does with one table): fast path
+        # (no metadata, union) and general path (metadata, or an intersection) must both return a new table
+        for md in (['none', 'none'], ['flat', 'none'], ['none', 'nested'], ['nested', 'flat']):
+            for others in ('list', 'tuple'):
+                for how in ('union', 'intersection'):
+                    for lay in (['csr'], ['csc']):
+                        spec = _spec(rng, md, values='counts', lay=lay)
+                        spec['layout'] = list(lay)
+                        yield {'op': 'merge', 'spec': spec, 'md': md, 'args': {'others': others, 'how': how},
+                               'grp': rng.choice([None, 'add'])}
+        # group metadata on the receiver (add_group_metadata / read back from HDF5): every operation that is not in place
+        for op in OPS:
+            if op in MUTATORS:
+                continue
+            for grp in ('add', 'sample', 'hdf5'):
+                for inplace in ((False, True) if op in FLAG_OPS else (False,)):
+                    c = _case(rng, op, None, inplace, md=['none', 'none'] if grp == 'hdf5' else None)
+                    c['grp'] = grp
                     yield c
         # exports: to_dataframe dense / sparse after a layout-changing access, then in-place operations on the table
         for access in ('none', 'data_sample', 'iter_sample', 'min_sample', 'max_observation', 'iter_observation'):
@@ -803,6 +869,10 @@ def classify(c):
         tags.append('repr:unbuildable')
     if c.get('hist'):
         tags.append('history:%s(%s)' % tuple(c['hist']))
+    if c.get('grp'):
+        tags.append('group-metadata:%s' % c['grp'])
+    if c['op'] == 'merge' and c.get('args', {}).get('others'):
+        tags.append('merge:empty-%s/%s' % (c['args']['others'], c['args'].get('how')))
     if c['op'] == 'to_dataframe':
         tags.append('export:%s' % ('dense' if c['args']['dense'] else 'sparse'))
     if c.get('args', {}).get('otm'):
